@@ -682,8 +682,8 @@ def assemClassContract(clsOrSelf, blocks):
 
 @lemma(overrides=BLK, stubs={"armi.reactor.blueprints.assemblyBlueprint:AssemblyBlueprint._createBlock": "createBlockContract",
                              "armi.reactor.blueprints.assemblyBlueprint:AssemblyBlueprint.getAssemClass": "assemClassContract"},
-       gen={"nb": (1, 4), "rad": [None, 0, 1, 3], "bu": [None, 0, 2]})
-def assembly_stacks_the_blocks_in_the_specified_order(nb: int, rad: int, bu: int):
+       gen={"nb": (1, 4), "rad": [None, 0, 1, 3], "bu": [0, 2, 5]})
+def assembly_stacks_the_blocks_in_the_specified_order(nb: int, rad: int, bu: int, noBu: bool):
     """AssemblyBlueprint._constructAssembly (+ AxialGrid.fromNCells), 1-4 blocks: the assembly has the blueprint's name, one
     block per block design in the SPECIFIED ORDER (block k made from design k for axial index k, named by assembly number and
     k), an axial grid with one cell per block that belongs to the assembly, the mesh points given (1 when absent) and the
@@ -694,7 +694,7 @@ def assembly_stacks_the_blocks_in_the_specified_order(nb: int, rad: int, bu: int
     a.flags = None
     a.radialMeshPoints = rad
     a.azimuthalMeshPoints = None
-    a.buGroup = bu
+    a.buGroup = None if noBu else bu
     designs = list(a.blocks)
     asm = a._constructAssembly({}, new(Bp))
     assert isinstance(asm, AssemProbe) and asm.name == "fuelAssem"
@@ -707,7 +707,7 @@ def assembly_stacks_the_blocks_in_the_specified_order(nb: int, rad: int, bu: int
     zb = asm.spatialGrid._bounds[2]
     assert len(zb) == nb + 1 and all(eq(zb[i], i) for i in range(nb + 1)), "one axial cell per block"
     assert asm.p.RadMesh == (rad if rad else 1) and asm.p.AziMesh == 1
-    assert asm.p.buGroup == bu, "blueprint-assigned parameter"
+    assert asm.p.buGroup == (None if noBu else bu), "blueprint-assigned parameter (left alone when the blueprint does not give it)"
 
 
 # ------------------------------------------------------------------------------------------------ grid blueprint
